@@ -181,7 +181,7 @@ def run(chk):
     for _ in range(120 if full else 30):
         junk = corpus.random_strings(rng, 4, maxlen=5)
         hists.append([junk[0], '4c', junk[1], '=1', junk[2], '2.r', junk[3], '4c 4e'])
-    ndocs = 600 if full else 80
+    ndocs = core.budget(chk, full, 80, 600)
     chk.rule = ('(a) histories over one KernSpineImporter: all orders of all subsets of {4c, 4zz, =1, c4}, every malformed '
                 'sample followed by valid cells, random histories of length 2..12 over valid + malformed cells; (b) generated '
                 'documents with 1..4 cells replaced by malformed text (unknown characters, wrong order, truncated, valid + '
